@@ -303,7 +303,30 @@ def oracle_eq(t1, t2, n, poly):
     return None
 
 
+def oracle_scaling():
+    """small coefficients are coefficients: nothing below a threshold is dropped by the arithmetic (all values exact in floating point)"""
+    import sageopt as so
+    t = 2.0 ** -30
+    y = so.standard_sig_monomials(2)
+    x = so.standard_poly_monomials(2)
+    checks = [('y0 + y1/2^30', y[0] + y[1] * t, [([1, 0], 1.0), ([0, 1], t)]),
+              ('(x0*x1 + 7)/2^30', (x[0] * x[1] + 7) / 2.0 ** 30, [([1, 1], t), ([0, 0], 7 * t)]),
+              ('(y0 - y1) * 2^-30', (y[0] - y[1]) * t, [([1, 0], t), ([0, 1], -t)]),
+              ('2^-30*x0^2 - 2^-30*x0^2 + 2^-30*x1', t * x[0] ** 2 - t * x[0] ** 2 + t * x[1], [([0, 1], t)])]
+    for name, f, want in checks:
+        got = {tuple(int(v) for v in a): float(c) for a, c in zip(np.asarray(f.alpha).tolist(), np.asarray(f.c, dtype=float).tolist()) if float(c) != 0}
+        exp = {tuple(a): c for a, c in want}
+        if got != exp:
+            return '%s has terms %s, expected %s (coefficients of size 2^-30 are coefficients, not zeros)' % (name, got, exp)
+    return None
+
+
 def run(ctx):
+    why = oracle_scaling()
+    ctx.evaluations += 4
+    ctx.suites['scaling'] = {'cases': 4, 'failure': why}
+    if why:
+        ctx.problem('oracle', 'property fails on the implementation: ' + why, inputs={'suite': 'scaling'}, failing_input_found=True)
     cases, eqcases = [], []
     ntrees = ctx.n(1200, 12000)
     kept = []
